@@ -1,6 +1,7 @@
 package c15
 
 import (
+	"hash/fnv"
 	"fmt"
 	"strconv"
 	"strings"
@@ -49,7 +50,20 @@ func InflatedTok(a *msggen.Abs) string {
 	if err != nil {
 		return "err"
 	}
-	return core.Hex(b)
+	return BytesTok(b)
+}
+
+// BigTok is the size above which byte strings travel as h:<len>:<fnv64> instead of hex.
+const BigTok = 1 << 20
+
+// BytesTok renders a byte string for an op / observation line: hex, or length and hash when big.
+func BytesTok(b []byte) string {
+	if len(b) <= BigTok {
+		return core.Hex(b)
+	}
+	h := fnv.New64a()
+	h.Write(b)
+	return fmt.Sprintf("h:%d:%016x", len(b), h.Sum64())
 }
 
 func twinOp(r *core.Rand, a *msggen.Abs, mode string) string {
